@@ -1,59 +1,96 @@
 """C16: upstreams are registered exactly while connected; expiry ends connections
-(Lifecycle.tla + cmd/peng mode c16 on a real node with real client listeners)."""
+(Lifecycle.tla / LifecycleOps.tla + cmd/peng mode c16 on a real node with real client listeners)."""
 import engine
+import gossip as G
 import vp
 from checks import prop, REPLAYERS
 
 L_INV = ["SessionsAreHandlers", "RegSubsetSess", "AdvMatchesReg", "RegistryIsOpenConns",
          "AllGoneAdvertisesNothing", "NotClosedBeforeExpiry"]
 L_PROPS = ["ClosedAtExpiry", "ShutdownReleasesAll"]
+COVER = {"ConnE1": {"c1", "c2"}, "ConnE2": {"c3"}, "MaxClock": 0, "DisableExpiry": False}
+WALK = {"ConnE1": {"c1", "c2", "c4", "c6"}, "ConnE2": {"c3", "c5", "c7"}, "MaxClock": 0, "DisableExpiry": False}
 
 
 def model(chk, label, c, timeout=2400):
     with vp.Scratch("mc-" + label) as d:
-        vp.copy_specs(d, ["Lifecycle"])
+        vp.copy_specs(d, ["Lifecycle", "LifecycleOps"])
         res = vp.run_tlc(d, "Lifecycle", vp.cfg_text("Spec", c, L_INV, L_PROPS, None), timeout=timeout)
     chk.add_tlc(res, label)
     if res.error or res.violated or res.queue != 0:
         raise vp.Machinery("Lifecycle.tla model %s failed (%s):\n%s" % (label, res.violated, res.out[-3000:]))
 
 
+def sched_of(c, **kw):
+    return dict({"mode": "c16", "connE1": sorted(c["ConnE1"]), "connE2": sorted(c["ConnE2"])}, **kw)
+
+
 @prop("C16")
 def c16(chk):
     quick = chk.tier == "quick"
-    chk.rule = ("(1) Lifecycle.tla: every interleaving of connect, go-away, proxied requests (ErrGone removal), "
-                "client close, network drop, shedding, token expiry (discrete clock), server shutdown and the "
-                "handler's deferred clean-up for 3 connections on 2 endpoints, incl. liveness ClosedAtExpiry and "
-                "ShutdownReleasesAll under fairness; (2) seeded scenarios on a real node: real client listeners "
-                "behind cuttable TCP relays, random sequences of the same events (incl. a request in flight while "
-                "its connection is cut), ending with everybody closing or the server shutting down; after every "
-                "event, at quiescence, the registry, open sessions, local routing entry and published gossip keys "
-                "are read back and judged by TLC (TraceL.tla); (3) token expiry measured against the wall clock "
-                "with and without disconnect-on-expiry")
+    chk.rule = ("(1) Lifecycle.tla Spec: every interleaving of connect, go-away, proxied requests (ErrGone removal), "
+                "client close, network drop, shedding, token expiry (discrete clock), redial, server shutdown and "
+                "the handler's deferred clean-up, incl. liveness ClosedAtExpiry and ShutdownReleasesAll under "
+                "fairness; (2) MacroSpec (the same transition functions composed per driver command): its complete "
+                "state graph for 3 listeners on 2 endpoints is dumped and a path set that takes every transition "
+                "is executed on a real node (real client listeners behind cuttable TCP relays), plus seeded random "
+                "command sequences over 7 listeners; after every command, at quiescence, the registry, open "
+                "sessions, local routing entry and published gossip keys are read back and TLC (TraceL.tla) "
+                "advances the set of specification states that explain the observations with the functions of "
+                "LifecycleOps.tla and judges the observation against the connections the driver holds open; "
+                "(3) token expiry measured against the wall clock with and without disconnect-on-expiry")
     chk.assumptions = ["quiescence is awaited for at most 3 s", "expiry tolerance -150 ms / +700 ms",
-                       "a listener that stopped accepting (go-away) does not reconnect after a drop"]
+                       "shedding is only triggered while every listener would reconnect"]
     if quick:
         model(chk, "C16-model", {"ConnE1": {"c1", "c2"}, "ConnE2": set(), "MaxClock": 1, "DisableExpiry": False})
     else:
         model(chk, "C16-model", {"ConnE1": {"c1", "c2"}, "ConnE2": {"c3"}, "MaxClock": 2, "DisableExpiry": False})
         model(chk, "C16-model-noexpiry", {"ConnE1": {"c1", "c2"}, "ConnE2": {"c3"}, "MaxClock": 1,
                                           "DisableExpiry": True})
-    v, st = engine.run(chk, "peng", {"mode": "c16", "sample": 6 if quick else 150}, "life", "TraceL", {},
-                       ["NoStepViolation"], "peng-life", what="the real node", strip=("mode", "sample"),
-                       timeout=3000)
-    chk.notes["executed_calls_by_action"] = st.get("by_op")
-    chk.nontrivial = st.get("distinct_outcomes", 0)
+    beh, info = G.gen_cover(chk, "C16-cover", COVER, module="Lifecycle", spec="MacroSpec", view="MacroView",
+                            max_len=40)
+    chk.notes["cover"] = info
+    chk.exhaustive = info["uncovered_edges"] == 0
+    ops = {}
+    v, st = engine.run(chk, "peng", sched_of(COVER, behaviours=beh, par=12), "cover", "TraceL", COVER,
+                       ["NoStepViolation"], "peng-life", what="the real node", strip=("behaviours",), timeout=3000)
+    nontrivial = st.get("distinct_outcomes", 0)
+    v2, st2 = engine.run(chk, "peng", sched_of(WALK, walks=24 if quick else 1500, par=12, expiry=True), "walks", "TraceL", WALK,
+                         ["NoStepViolation"], "peng-life", what="the real node", timeout=3000)
+    chk.nontrivial = nontrivial + st2.get("distinct_outcomes", 0)
+    for s in (st, st2):
+        for k, n in s.get("by_op", {}).items():
+            ops[k] = ops.get(k, 0) + n
+    chk.notes["executed_calls_by_action"] = ops
     chk.rule += "; distinct_nontrivial = distinct observations"
     for need in ("Life", "Expiry"):
-        if st.get("by_op", {}).get(need, 0) == 0:
+        if ops.get(need, 0) == 0:
             raise vp.Machinery("vacuous run: no " + need)
 
 
 def _replay(chk, obj):
-    # scenarios are seeded; a replay re-runs the scenarios of the seed recorded in the file
-    chk.seed = obj.get("seed", chk.seed)
-    v, st = engine.run(chk, "peng", obj.get("full_sched", {"mode": "c16", "sample": 6}), "replay", "TraceL", {},
-                       ["NoStepViolation"], "peng-life", what="the real node")
+    consts = {k: set(v) if isinstance(v, list) else v for k, v in obj["consts"].items()}
+    sched = dict(obj["sched"])
+    sched["behaviours"] = [[c for c in b if c and c[0] in ("listen", "goaway", "close", "request", "drop",
+                                                           "drop-inflight", "shed", "stop")]
+                           for b in sched.get("behaviours", [])]
+    names = {"listen": "DoListen", "goaway": "DoGoAway", "close": "DoClose", "drop": "DoDrop",
+             "drop-inflight": "DoDropInflight", "shed": "DoShed", "stop": "DoStop"}
+    out = []
+    for b in sched["behaviours"]:
+        cmds = []
+        for ev, c, e in b:
+            if ev == "request":
+                cmds.append(["DoRequestNone", e])
+            elif ev in ("shed", "stop"):
+                cmds.append([names[ev]])
+            else:
+                cmds.append([names[ev], c])
+        out.append(cmds)
+    sched["behaviours"] = out
+    sched["walks"] = 0
+    v, st = engine.run(chk, "peng", sched, "replay", "TraceL", consts, ["NoStepViolation"], "peng-life",
+                       what="the real node")
     print("replay: not reproduced (%d observations)" % st.get("steps", 0))
 
 
